@@ -1,8 +1,60 @@
 """C08 - decoding, pseudo-expansion and constant folding follow RV32IM.
 Theorems: Props/C08.v.  Tie: MathOp::operate (debug + release) against the extracted model on a
 boundary grid squared plus random pairs; the spec value comes from the extracted FoldSpec.eval."""
-import lib
+import re
+import lib, asm_manual, interp
 from props import common
+
+_NODE = re.compile(r"N\((\w+) ([^|]*?) \| [^)]*\)")
+
+
+def nodes_of(line):
+    out = []
+    for m in _NODE.finditer(line):
+        k = m.group(1)
+        if k in ("progentry", "funcentry"):
+            continue
+        fs = [f.split("@")[0] for f in m.group(2).split()]
+        if k in ("branch", "jumplink", "loadaddr"):
+            fs[-1] = lib.dec(fs[-1])
+        out.append((k, fs))
+    return out
+
+
+def decode_check(ctx):
+    """every mnemonic x operand form of the assembly manual (tools/asm_manual.py): the nodes built by the
+    implementation must have the manual's architectural effect on every sampled register file; and the
+    model must build the same nodes (correspondence)."""
+    forms = asm_manual.forms(ctx.rng)
+    cmds = [lib.store_cmd("parse", [("a.s", t + "\n")], "a.s") for t, _ in forms]
+    impl = lib.run_impl(ctx, cmds, tag="dec-impl")
+    model = lib.run_model(ctx, cmds, tag="dec-model")
+    states = []
+    for k in range(6):
+        rg = [ctx.rng.choice([0, 1, -1, 2 ** 31 - 1, -2 ** 31, ctx.rng.randrange(-2 ** 31, 2 ** 31)]) for _ in range(32)]
+        rg[0] = 0
+        states.append(rg)
+    states.append([0] + [ctx.rng.randrange(-2 ** 31, 2 ** 31)] * 31)
+    bad, dis = [], []
+    for (text, exp), a, b in zip(forms, impl, model):
+        if a != b:
+            dis.append(dict(text=text, impl=a, model=b))
+        if "E(" in a or a.startswith(("PANIC", "TIMEOUT", "CRASH")):
+            bad.append(dict(text=text, impl=a, why="a form of the assembly manual is rejected"))
+            continue
+        try:
+            ns = nodes_of(a)
+            for rg in states:
+                want = [e for e in exp(rg) if not (e[0] == "reg" and e[1] == 0)]
+                got = asm_manual.effect_of_nodes(ns, rg)
+                if want != got:
+                    bad.append(dict(text=text, impl=a, registers={asm_manual.ABI[i]: v for i, v in enumerate(rg)},
+                                    manual_effect=repr(want), decoded_effect=repr(got),
+                                    why="the decoded nodes do not have the effect the manual gives this line"))
+                    break
+        except Exception as e:  # an unparsable dump is a disagreement, not silence
+            bad.append(dict(text=text, impl=a, why="decode oracle could not read the nodes: %r" % e))
+    return forms, bad, dis
 
 OPS = ["add", "and", "or", "sll", "slt", "sltu", "sra", "srl", "sub", "xor",
        "mul", "mulh", "mulhsu", "mulhu", "div", "divu", "rem", "remu"]
@@ -56,6 +108,14 @@ def run(ctx):
             if a != sp:
                 failing.append(dict(profile=prof, cmd=c, impl=a, rv32im=sp,
                                     why="MathOp::operate differs from the ISA result"))
+    forms, dbad, ddis = decode_check(ctx)
+    evaluations += len(forms)
+    for d in dbad:
+        failing.append(dict(profile="debug", cmd="parse " + d["text"], **d))
+    for d in ddis:
+        disagreements.append(dict(profile="debug", cmd="parse " + d["text"], **d))
+    ctx.coverage["decode_forms"] = len(forms)
+    ctx.coverage["decode_mnemonics"] = len(set(t.split()[0] for t, _ in forms))
     ctx.coverage.update(
         evaluations=evaluations, distinct_nontrivial=len(set(cmds)),
         rule="MathOp::operate on (boundary grid)^2 + random i32 pairs x 18 operators, debug and release builds, compared with the "
@@ -64,7 +124,7 @@ def run(ctx):
         correspondence_disagreements=len(disagreements), exhaustive=False)
     if failing:
         f = failing[0]
-        lib.violation(ctx, "fold", dict(property="C08", input=f, all_failing=failing[:20],
+        lib.violation(ctx, "decode" if f["cmd"].startswith("parse ") else "fold", dict(property="C08", input=f, all_failing=failing[:20],
                                        how="echo '%s' > cmds; harness/target/%s/rva_harness cmds" % (f["cmd"], f["profile"])), True)
         return
     if disagreements or not proof_ok:
